@@ -23,6 +23,7 @@ import hashlib
 import json
 import os
 import sys
+from math import gcd
 
 __all__ = [
     "EdCurve", "ED25519", "ED448",
@@ -105,6 +106,7 @@ class EdCurve:
         self.enc_len = enc_len
         self._a_small = a          # +1 / -1, used by the fast path
         self._low = None
+        self._btab = None
         assert self.on_curve(B)
 
     # ---- affine group law (the definition) --------------------------------
@@ -201,37 +203,108 @@ class EdCurve:
         return (X * zi % p, Y * zi % p)
 
     def mul(self, k, P):
-        """k*P for any int k (reduced modulo h*L, the group exponent
-        multiple).  P must be on the curve (any order)."""
+        """k*P for any int k (reduced modulo h*L, a multiple of the group
+        exponent).  P must be on the curve (any order).  wNAF-5 over
+        extended coordinates; the doubling/addition formulas are inlined
+        copies of _ext_dbl/_ext_add."""
         k %= self.h * self.L
         if k == 0:
             return self.neutral
         p = self.p
+        a = self._a_small
         x, y = P
         x %= p
         y %= p
         P1 = (x, y, 1, x * y % p)
-        # odd multiples 1P, 3P, ..., 15P
         P2 = self._ext_dbl(P1)
         tab = [P1]
         for _ in range(7):
             tab.append(self._ext_add(tab[-1], P2))
-        ntab = [((-X) % p, Y, Z, (-T) % p) for (X, Y, Z, T) in tab]
+        d = self.d
+        # table entries hold d*T instead of T (saves one product per add)
+        tab = [(X, Y, Z, d * T % p) for (X, Y, Z, T) in tab]
+        ntab = [(-X, Y, Z, -T) for (X, Y, Z, T) in tab]
         naf = _wnaf(k, 5)
-        R = None
-        ext_add = self._ext_add
-        ext_dbl = self._ext_dbl
-        for i in range(len(naf) - 1, -1, -1):
-            dgt = naf[i]
-            if R is not None:
-                R = ext_dbl(R, dgt != 0)
-            if dgt:
-                Q = tab[dgt >> 1] if dgt > 0 else ntab[(-dgt) >> 1]
-                R = Q if R is None else ext_add(R, Q)
-        return self._to_affine(R)
+        X1, Y1, Z1 = 0, 1, 1
+        i = len(naf)
+        while i:
+            i -= 1
+            dg = naf[i]
+            A = X1 * X1 % p
+            B = Y1 * Y1 % p
+            C = 2 * Z1 * Z1 % p
+            D = a * A
+            s = X1 + Y1
+            E = s * s - A - B
+            G = D + B
+            F = G - C
+            H = D - B
+            X1 = E * F % p
+            Y1 = G * H % p
+            Z1 = F * G % p
+            if dg:
+                T1 = E * H % p
+                X2, Y2, Z2, T2 = tab[dg >> 1] if dg > 0 else ntab[(-dg) >> 1]
+                A = X1 * X2 % p
+                B = Y1 * Y2 % p
+                C = T1 * T2 % p
+                D = Z1 * Z2 % p
+                E = (X1 + Y1) * (X2 + Y2) - A - B
+                F = D - C
+                G = D + C
+                H = B - a * A
+                X1 = E * F % p
+                Y1 = G * H % p
+                Z1 = F * G % p
+        zi = pow(Z1, -1, p)
+        return (X1 * zi % p, Y1 * zi % p)
+
+    def _base_table(self):
+        if self._btab is None:
+            p = self.p
+            d = self.d
+            nwin = (self.L.bit_length() + 3 + 3) // 4   # covers k < h*L
+            rows = []
+            x, y = self.B
+            Q = (x, y, 1, x * y % p)
+            for _ in range(nwin):
+                row = [Q]
+                for _ in range(14):
+                    row.append(self._ext_add(row[-1], Q))
+                rows.append(row)
+                Q = self._ext_add(row[-1], Q)          # 16 * previous Q
+            self._btab = [[(X, Y, Z, d * T % p) for (X, Y, Z, T) in row]
+                          for row in rows]
+        return self._btab
 
     def mul_base(self, k):
-        return self.mul(k, self.B)
+        """k*B using a cached table of j*16^i*B (j = 1..15)."""
+        k %= self.h * self.L
+        tabs = self._base_table()
+        p = self.p
+        a = self._a_small
+        X1, Y1, Z1, T1 = 0, 1, 1, 0
+        i = 0
+        while k:
+            j = k & 15
+            k >>= 4
+            if j:
+                X2, Y2, Z2, T2 = tabs[i][j - 1]
+                A = X1 * X2 % p
+                B = Y1 * Y2 % p
+                C = T1 * T2 % p
+                D = Z1 * Z2 % p
+                E = (X1 + Y1) * (X2 + Y2) - A - B
+                F = D - C
+                G = D + C
+                H = B - a * A
+                X1 = E * F % p
+                Y1 = G * H % p
+                Z1 = F * G % p
+                T1 = E * H % p
+            i += 1
+        zi = pow(Z1, -1, p)
+        return (X1 * zi % p, Y1 * zi % p)
 
     # ---- RFC 8032 encoding -------------------------------------------------
 
@@ -343,3 +416,1088 @@ ED448 = EdCurve(
     (224580040295924300187604334099896036246789641632564134246125461686950415467406032909029192869357953282578032075146446173674602635247710,
      298819210078481492676017930443930673437544040154080242095928241372331506189835876003536878655418784733982303233503462500531545062832660),
     57)
+
+
+# ===========================================================================
+# EdDSA (RFC 8032), strict decoding + cofactored verification
+# ===========================================================================
+#
+# Context strings longer than 255 bytes
+# -------------------------------------
+# RFC 8032 requires len(ctx) <= 255 (it is encoded on one octet in dom2/dom4).
+# crrl documents "The context string MUST have length at most 255 bytes" and
+# enforces it with `assert!(ctx.len() <= 255)`, i.e. it PANICS:
+#   * sign_ctx / sign_ph (Ed25519) and sign_ctx / sign_ph (Ed448): always
+#     panic when len(ctx) > 255;
+#   * verify_ctx / verify_ph: the assert sits AFTER the cheap syntactic
+#     checks, so crrl returns false if the signature has the wrong length /
+#     R does not decode / S >= L (Ed448: also last byte != 0), and panics
+#     otherwise.
+#   * Ed25519 "raw" mode has no context and never panics.
+# This model: *_sign raise ValueError; *_verify return False;
+# eddsa_verify_outcome() reproduces the panic/false split exactly.
+
+_DOM2_PREFIX = b"SigEd25519 no Ed25519 collisions"
+_DOM4_PREFIX = b"SigEd448"
+
+
+def _sha512(*parts):
+    h = hashlib.sha512()
+    for x in parts:
+        h.update(x)
+    return h.digest()
+
+
+def _shake256_114(*parts):
+    h = hashlib.shake_256()
+    for x in parts:
+        h.update(x)
+    return h.digest(114)
+
+
+def _dom2(ctx, ph):
+    """dom2(F, C) of RFC 8032; empty string for pure Ed25519
+    (ctx is None and not ph)."""
+    if ctx is None and not ph:
+        return b""
+    if ctx is None:
+        ctx = b""
+    if len(ctx) > 255:
+        raise ValueError("context too long (crrl panics)")
+    return _DOM2_PREFIX + bytes([1 if ph else 0, len(ctx)]) + bytes(ctx)
+
+
+def _dom4(ctx, ph):
+    if ctx is None:
+        ctx = b""
+    if len(ctx) > 255:
+        raise ValueError("context too long (crrl panics)")
+    return _DOM4_PREFIX + bytes([1 if ph else 0, len(ctx)]) + bytes(ctx)
+
+
+def _ed25519_expand(seed):
+    if len(seed) != 32:
+        raise ValueError("Ed25519 seed must be 32 bytes (crrl panics)")
+    h = _sha512(seed)
+    a = int.from_bytes(h[:32], "little")
+    a &= (1 << 254) - 8
+    a |= 1 << 254
+    return a, h[32:]
+
+
+def _ed448_expand(seed):
+    if len(seed) != 57:
+        raise ValueError("Ed448 seed must be 57 bytes (crrl panics)")
+    h = _shake256_114(seed)
+    b = bytearray(h[:57])
+    b[0] &= 0xFC
+    b[55] |= 0x80
+    b[56] = 0
+    return int.from_bytes(b, "little"), h[57:]
+
+
+def ed25519_public_key(seed32):
+    a, _ = _ed25519_expand(bytes(seed32))
+    return ED25519.encode(ED25519.mul_base(a))
+
+
+def ed25519_sign(seed32, msg, ctx=None, ph=False):
+    """ctx=None, ph=False: pure Ed25519.  ctx given (possibly b''), ph=False:
+    Ed25519ctx.  ph=True: Ed25519ph, `msg` is ALREADY the prehash (crrl's
+    sign_ph(ctx, hm) takes the hash value; its length is not checked)."""
+    C = ED25519
+    msg = bytes(msg)
+    dom = _dom2(ctx, ph)
+    a, prefix = _ed25519_expand(bytes(seed32))
+    A = C.encode(C.mul_base(a))
+    r = int.from_bytes(_sha512(dom, prefix, msg), "little") % C.L
+    R = C.encode(C.mul_base(r))
+    k = int.from_bytes(_sha512(dom, R, A, msg), "little") % C.L
+    S = (r + k * a) % C.L
+    return R + S.to_bytes(32, "little")
+
+
+def ed448_public_key(seed57):
+    a, _ = _ed448_expand(bytes(seed57))
+    return ED448.encode(ED448.mul_base(a))
+
+
+def ed448_sign(seed57, msg, ctx=b"", ph=False):
+    """Ed448 (ph=False) / Ed448ph (ph=True; `msg` is ALREADY the 64-byte
+    SHAKE256 prehash, as for crrl's sign_ph).  dom4 is always present."""
+    C = ED448
+    msg = bytes(msg)
+    dom = _dom4(ctx, ph)
+    a, prefix = _ed448_expand(bytes(seed57))
+    A = C.encode(C.mul_base(a))
+    r = int.from_bytes(_shake256_114(dom, prefix, msg), "little") % C.L
+    R = C.encode(C.mul_base(r))
+    k = int.from_bytes(_shake256_114(dom, R, A, msg), "little") % C.L
+    S = (r + k * a) % C.L
+    return R + S.to_bytes(57, "little")
+
+
+def eddsa_equation(C, A, R, S, k):
+    """The cofactored verification equation [h]([S]B - R - [k]A) == neutral
+    on affine points A, R of curve C."""
+    Q = C.sub(C.sub(C.mul_base(S), R), C.mul(k, A))
+    return C.is_neutral(C.mul_affine(C.h, Q))
+
+
+def eddsa_verify_outcome(curve, pk_bytes, sig, msg, ctx=None, ph=False):
+    """Returns "accept", "reject" or "panic" -- the latter exactly when crrl's
+    verify_ctx / verify_ph would hit `assert!(ctx.len() <= 255)`.
+    `pk_bytes` not decoding yields "reject" (in crrl PublicKey::decode
+    returns None, so verification cannot even be attempted).
+    curve is ED25519 or ED448.  For ED448, ctx=None means b''."""
+    C = curve
+    n = C.enc_len
+    pk_bytes = bytes(pk_bytes)
+    sig = bytes(sig)
+    msg = bytes(msg)
+    A = C.decode(pk_bytes)
+    if A is None:
+        return "reject"
+    if len(sig) != 2 * n:
+        return "reject"
+    R = C.decode(sig[:n])
+    if R is None:
+        return "reject"
+    S = int.from_bytes(sig[n:], "little")
+    if S >= C.L:
+        return "reject"
+    try:
+        if C is ED25519:
+            dom = _dom2(ctx, ph)
+            k = int.from_bytes(_sha512(dom, sig[:n], pk_bytes, msg), "little") % C.L
+        else:
+            dom = _dom4(ctx, ph)
+            k = int.from_bytes(_shake256_114(dom, sig[:n], pk_bytes, msg), "little") % C.L
+    except ValueError:
+        return "panic"
+    return "accept" if eddsa_equation(C, A, R, S, k) else "reject"
+
+
+def ed25519_verify(pk_bytes, sig, msg, ctx=None, ph=False):
+    """Strict RFC 8032 / FIPS 186-5 verification: len(sig) == 64, A and R
+    decode canonically, S < L, and [8]([S]B - R - [k]A) == neutral.
+    len(ctx) > 255 -> False (crrl: see note above)."""
+    return eddsa_verify_outcome(ED25519, pk_bytes, sig, msg, ctx, ph) == "accept"
+
+
+def ed448_verify(pk_bytes, sig, msg, ctx=b"", ph=False):
+    """Same for Ed448: len(sig) == 114, S (57 bytes, little-endian) < L --
+    hence last byte 0 --, and [4]([S]B - R - [k]A) == neutral."""
+    return eddsa_verify_outcome(ED448, pk_bytes, sig, msg, ctx, ph) == "accept"
+
+
+# ===========================================================================
+# ristretto255 and decaf448 (RFC 9496)
+# ===========================================================================
+#
+# A group element is represented by ANY affine Edwards point (x, y) of its
+# coset: for ristretto255 a point of the even subgroup 2E of edwards25519,
+# modulo E[4]; for decaf448 a point of 2E of edwards448, modulo
+# E[2] = {(0,1), (0,-1)}.  Group operations are the Edwards ones.
+
+def _is_neg(x):
+    return x & 1
+
+
+class Ristretto255:
+    curve = ED25519
+    enc_len = 32
+    map_len = 64
+    p = _P25519
+    L = _L25519
+    D = _D25519
+    # constants of RFC 9496 section 4.1 (decimal values from the RFC; the
+    # asserts below tie them to their definitions)
+    SQRT_M1 = 19681161376707505956807079304988542015446066515923890162744021073123829784752
+    SQRT_AD_MINUS_ONE = 25063068953384623474111414158702152701244531502492656460079210482610430750235
+    INVSQRT_A_MINUS_D = 54469307008909316920995813868745141605393597292927456921205312896311721017578
+    ONE_MINUS_D_SQ = (1 - _D25519 * _D25519) % _P25519
+    D_MINUS_ONE_SQ = (_D25519 - 1) ** 2 % _P25519
+
+    neutral = (0, 1)
+    base = ED25519.B
+
+    def _abs(self, x):
+        x %= self.p
+        return self.p - x if x & 1 else x
+
+    def sqrt_ratio_m1(self, u, v):
+        """SQRT_RATIO_M1 of RFC 9496 4.2, implemented from its specification
+        (not from the exponentiation recipe):
+          u/v square (or u = 0)       -> (True,  |sqrt(u/v)|)
+          v = 0, u != 0               -> (False, 0)
+          u/v non-square              -> (False, |sqrt(SQRT_M1*u/v)|)"""
+        p = self.p
+        u %= p
+        v %= p
+        if u == 0:
+            return True, 0
+        if v == 0:
+            return False, 0
+        q = u * pow(v, -1, p) % p
+        r = _sqrt_mod(q, p)
+        if r is not None:
+            return True, self._abs(r)
+        r = _sqrt_mod(self.SQRT_M1 * q, p)
+        assert r is not None
+        return False, self._abs(r)
+
+    def decode(self, b):
+        """RFC 9496 4.3.1 (strict: 32 bytes, s < p, s non-negative, ...)."""
+        if not isinstance(b, (bytes, bytearray)) or len(b) != 32:
+            return None
+        p = self.p
+        s = int.from_bytes(b, "little")
+        if s >= p or _is_neg(s):
+            return None
+        ss = s * s % p
+        u1 = (1 - ss) % p
+        u2 = (1 + ss) % p
+        u2_sqr = u2 * u2 % p
+        v = (-(self.D * u1 * u1) - u2_sqr) % p
+        was_square, invsqrt = self.sqrt_ratio_m1(1, v * u2_sqr)
+        den_x = invsqrt * u2 % p
+        den_y = invsqrt * den_x * v % p
+        x = self._abs(2 * s * den_x)
+        y = u1 * den_y % p
+        t = x * y % p
+        if (not was_square) or _is_neg(t) or y == 0:
+            return None
+        return (x, y)
+
+    def encode(self, P):
+        """RFC 9496 4.3.2 on the affine representative (z0 = 1, t0 = x0*y0)."""
+        p = self.p
+        x0, y0 = P
+        x0 %= p
+        y0 %= p
+        z0 = 1
+        t0 = x0 * y0 % p
+        u1 = (z0 + y0) * (z0 - y0) % p
+        u2 = x0 * y0 % p
+        _, invsqrt = self.sqrt_ratio_m1(1, u1 * u2 * u2)
+        den1 = invsqrt * u1 % p
+        den2 = invsqrt * u2 % p
+        z_inv = den1 * den2 * t0 % p
+        ix0 = x0 * self.SQRT_M1 % p
+        iy0 = y0 * self.SQRT_M1 % p
+        enchanted_denominator = den1 * self.INVSQRT_A_MINUS_D % p
+        if _is_neg(t0 * z_inv % p):
+            x, y, den_inv = iy0, ix0, enchanted_denominator
+        else:
+            x, y, den_inv = x0, y0, den2
+        if _is_neg(x * z_inv % p):
+            y = (-y) % p
+        s = self._abs(den_inv * (z0 - y))
+        return s.to_bytes(32, "little")
+
+    def eq(self, P, Q):
+        """RFC 9496 4.3.3."""
+        p = self.p
+        x1, y1 = P
+        x2, y2 = Q
+        return (x1 * y2 - y1 * x2) % p == 0 or (y1 * y2 - x1 * x2) % p == 0
+
+    def is_neutral(self, P):
+        return self.eq(P, self.neutral)
+
+    def _map(self, t):
+        """MAP of RFC 9496 4.3.4 (Elligator 2), returns an affine point."""
+        p = self.p
+        D = self.D
+        r = self.SQRT_M1 * t * t % p
+        u = (r + 1) * self.ONE_MINUS_D_SQ % p
+        v = (-1 - r * D) * (r + D) % p
+        was_square, s = self.sqrt_ratio_m1(u, v)
+        s_prime = (-self._abs(s * t)) % p
+        if not was_square:
+            s = s_prime
+            c = r
+        else:
+            c = p - 1
+        N = (c * (r - 1) * self.D_MINUS_ONE_SQ - v) % p
+        w0 = 2 * s * v % p
+        w1 = N * self.SQRT_AD_MINUS_ONE % p
+        w2 = (1 - s * s) % p
+        w3 = (1 + s * s) % p
+        # (X:Y:Z:T) = (w0*w3 : w2*w1 : w1*w3 : w0*w2)  ->  x = w0/w1, y = w2/w3
+        assert w1 != 0 and w3 != 0
+        return (w0 * pow(w1, -1, p) % p, w2 * pow(w3, -1, p) % p)
+
+    def one_way_map(self, b):
+        """Element derivation of RFC 9496 4.3.4, as documented by
+        crrl::ristretto255::Point::one_way_map: the input MUST be exactly 64
+        bytes (crrl panics otherwise -> ValueError here); each 32-byte half
+        has its top bit masked and is reduced modulo p; result is
+        MAP(t1) + MAP(t2)."""
+        b = bytes(b)
+        if len(b) != 64:
+            raise ValueError("one_way_map input must be 64 bytes (crrl panics)")
+        m = (1 << 255) - 1
+        t1 = (int.from_bytes(b[:32], "little") & m) % self.p
+        t2 = (int.from_bytes(b[32:], "little") & m) % self.p
+        return self.curve.add(self._map(t1), self._map(t2))
+
+    # group operations are inherited from the curve
+    def add(self, P, Q):
+        return self.curve.add(P, Q)
+
+    def neg(self, P):
+        return self.curve.neg(P)
+
+    def sub(self, P, Q):
+        return self.curve.sub(P, Q)
+
+    def dbl(self, P):
+        return self.curve.dbl(P)
+
+    def mul(self, k, P):
+        return self.curve.mul(k % self.L, P)
+
+    def mul_base(self, k):
+        return self.curve.mul(k % self.L, self.base)
+
+    def is_valid_representative(self, P):
+        """P is on the curve and in 2E (i.e. [4L]P == neutral)."""
+        c = self.curve
+        return c.on_curve(P) and c.is_neutral(c.mul(c.L * c.h // 2, P))
+
+
+assert Ristretto255.SQRT_M1 ** 2 % _P25519 == _P25519 - 1
+assert Ristretto255.SQRT_AD_MINUS_ONE ** 2 % _P25519 == (-_D25519 - 1) % _P25519
+assert Ristretto255.INVSQRT_A_MINUS_D ** 2 * (-1 - _D25519) % _P25519 == 1
+
+RISTRETTO255 = Ristretto255()
+
+
+class Decaf448:
+    curve = ED448
+    enc_len = 56
+    map_len = 112
+    p = _P448
+    L = _L448
+    D = (-39081) % _P448
+    # constants of RFC 9496 section 5.1
+    ONE_MINUS_D = 39082
+    ONE_MINUS_TWO_D = 78163
+    SQRT_MINUS_D = 98944233647732219769177004876929019128417576295529901074099889598043702116001257856802131563896515373927712232092845883226922417596214
+    INVSQRT_MINUS_D = 315019913931389607337177038330951043522456072897266928557328499619017160722351061360252776265186336876723201881398623946864393857820716
+
+    neutral = (0, 1)
+    base = ED448.add(ED448.B, ED448.B)    # decaf448 generator = 2*B_edwards448
+
+    def _abs(self, x):
+        x %= self.p
+        return self.p - x if x & 1 else x
+
+    def sqrt_ratio_m1(self, u, v):
+        """SQRT_RATIO_M1 of RFC 9496 5.2, from its specification:
+          u/v square (or u = 0) -> (True,  |sqrt(u/v)|)
+          v = 0, u != 0         -> (False, 0)
+          u/v non-square        -> (False, |sqrt(-u/v)|)"""
+        p = self.p
+        u %= p
+        v %= p
+        if u == 0:
+            return True, 0
+        if v == 0:
+            return False, 0
+        q = u * pow(v, -1, p) % p
+        r = _sqrt_mod(q, p)
+        if r is not None:
+            return True, self._abs(r)
+        r = _sqrt_mod(-q, p)
+        assert r is not None
+        return False, self._abs(r)
+
+    def decode(self, b):
+        """RFC 9496 5.3.1."""
+        if not isinstance(b, (bytes, bytearray)) or len(b) != 56:
+            return None
+        p = self.p
+        s = int.from_bytes(b, "little")
+        if s >= p or _is_neg(s):
+            return None
+        ss = s * s % p
+        u1 = (1 + ss) % p
+        u2 = (u1 * u1 - 4 * self.D * ss) % p
+        was_square, invsqrt = self.sqrt_ratio_m1(1, u2 * u1 * u1)
+        u3 = self._abs(2 * s * invsqrt * u1 * self.SQRT_MINUS_D)
+        x = u3 * invsqrt * u2 * self.INVSQRT_MINUS_D % p
+        y = (1 - ss) * invsqrt * u1 % p
+        if not was_square:
+            return None
+        return (x, y)
+
+    def encode(self, P):
+        """RFC 9496 5.3.2 on the affine representative (z0 = 1, t0 = x0*y0)."""
+        p = self.p
+        x0, y0 = P
+        x0 %= p
+        y0 %= p
+        z0 = 1
+        t0 = x0 * y0 % p
+        u1 = (x0 + t0) * (x0 - t0) % p
+        _, invsqrt = self.sqrt_ratio_m1(1, u1 * self.ONE_MINUS_D * x0 * x0)
+        ratio = self._abs(invsqrt * u1 * self.SQRT_MINUS_D)
+        u2 = (self.INVSQRT_MINUS_D * ratio * z0 - t0) % p
+        s = self._abs(self.ONE_MINUS_D * invsqrt * x0 * u2)
+        return s.to_bytes(56, "little")
+
+    def eq(self, P, Q):
+        """RFC 9496 5.3.3."""
+        return (P[0] * Q[1] - P[1] * Q[0]) % self.p == 0
+
+    def is_neutral(self, P):
+        return P[0] % self.p == 0
+
+    def _map(self, t):
+        """MAP of RFC 9496 5.3.4, returns an affine point."""
+        p = self.p
+        r = (-t * t) % p
+        u0 = self.D * (r - 1) % p
+        u1 = (u0 + 1) * (u0 - r) % p
+        was_square, v = self.sqrt_ratio_m1(self.ONE_MINUS_TWO_D, (r + 1) * u1)
+        if was_square:
+            v_prime = v
+            sgn = 1
+        else:
+            v_prime = t * v % p
+            sgn = p - 1
+        s = v_prime * (r + 1) % p
+        w0 = 2 * self._abs(s) % p
+        w1 = (s * s + 1) % p
+        w2 = (s * s - 1) % p
+        w3 = (v_prime * s * (r - 1) * self.ONE_MINUS_TWO_D + sgn) % p
+        # (X:Y:Z:T) = (w0*w3 : w2*w1 : w1*w3 : w0*w2)  ->  x = w0/w1, y = w2/w3
+        assert w1 != 0 and w3 != 0
+        return (w0 * pow(w1, -1, p) % p, w2 * pow(w3, -1, p) % p)
+
+    def one_way_map(self, b):
+        """Element derivation of RFC 9496 5.3.4, as documented by
+        crrl::decaf448::Point::one_way_map: input MUST be exactly 112 bytes
+        (crrl panics otherwise -> ValueError here); each 56-byte half is
+        decoded little-endian and reduced modulo p; MAP(t1) + MAP(t2)."""
+        b = bytes(b)
+        if len(b) != 112:
+            raise ValueError("one_way_map input must be 112 bytes (crrl panics)")
+        t1 = int.from_bytes(b[:56], "little") % self.p
+        t2 = int.from_bytes(b[56:], "little") % self.p
+        return self.curve.add(self._map(t1), self._map(t2))
+
+    def add(self, P, Q):
+        return self.curve.add(P, Q)
+
+    def neg(self, P):
+        return self.curve.neg(P)
+
+    def sub(self, P, Q):
+        return self.curve.sub(P, Q)
+
+    def dbl(self, P):
+        return self.curve.dbl(P)
+
+    def mul(self, k, P):
+        return self.curve.mul(k % self.L, P)
+
+    def mul_base(self, k):
+        return self.curve.mul(k % self.L, self.base)
+
+    def is_valid_representative(self, P):
+        """P is on the curve and in 2E (i.e. [2L]P == neutral)."""
+        c = self.curve
+        return c.on_curve(P) and c.is_neutral(c.mul(c.L * c.h // 2, P))
+
+
+assert Decaf448.SQRT_MINUS_D ** 2 % _P448 == 39081
+assert Decaf448.SQRT_MINUS_D * Decaf448.INVSQRT_MINUS_D % _P448 == 1
+
+DECAF448 = Decaf448()
+
+
+# ===========================================================================
+# X25519 / X448 (RFC 7748 section 5)
+# ===========================================================================
+
+def _ladder(k, u, p, bits, a24):
+    x1 = u
+    x2, z2, x3, z3 = 1, 0, u, 1
+    swap = 0
+    for t in range(bits - 1, -1, -1):
+        kt = (k >> t) & 1
+        swap ^= kt
+        if swap:
+            x2, x3 = x3, x2
+            z2, z3 = z3, z2
+        swap = kt
+        A = x2 + z2
+        AA = A * A % p
+        B = x2 - z2
+        BB = B * B % p
+        E = AA - BB
+        C = x3 + z3
+        D = x3 - z3
+        DA = D * A % p
+        CB = C * B % p
+        x3 = (DA + CB) ** 2 % p
+        z3 = x1 * (DA - CB) ** 2 % p
+        x2 = AA * BB % p
+        z2 = E * (AA + a24 * E) % p
+    if swap:
+        x2, x3 = x3, x2
+        z2, z3 = z3, z2
+    return x2 * pow(z2, p - 2, p) % p
+
+
+def x25519(k32, u32):
+    """RFC 7748 X25519(k, u).  NOTE the argument order: scalar first, as in
+    the RFC; crrl's x25519(point, scalar) takes the u coordinate first.
+    Scalar is clamped; the top bit of u is ignored; non-canonical u
+    (2^255-19 .. 2^255-1) is reduced; no output filtering (all-zero output
+    is returned as such)."""
+    k32 = bytes(k32)
+    u32 = bytes(u32)
+    if len(k32) != 32 or len(u32) != 32:
+        raise ValueError("x25519 takes two 32-byte strings")
+    k = int.from_bytes(k32, "little")
+    k &= (1 << 254) - 8
+    k |= 1 << 254
+    u = (int.from_bytes(u32, "little") & ((1 << 255) - 1)) % _P25519
+    return _ladder(k, u, _P25519, 255, 121665).to_bytes(32, "little")
+
+
+def x448(k56, u56):
+    """RFC 7748 X448(k, u) (scalar first; crrl's x448(point, scalar) takes
+    the u coordinate first).  Non-canonical u is reduced modulo p."""
+    k56 = bytes(k56)
+    u56 = bytes(u56)
+    if len(k56) != 56 or len(u56) != 56:
+        raise ValueError("x448 takes two 56-byte strings")
+    k = int.from_bytes(k56, "little")
+    k &= (1 << 448) - 4
+    k |= 1 << 447
+    u = int.from_bytes(u56, "little") % _P448
+    return _ladder(k, u, _P448, 448, 39081).to_bytes(56, "little")
+
+
+# ===========================================================================
+# Self-test
+# ===========================================================================
+
+class _Tally:
+    def __init__(self):
+        self.passed = {}
+        self.failed = {}
+        self.order = []
+
+    def check(self, kind, cond, what=""):
+        if kind not in self.passed:
+            self.passed[kind] = 0
+            self.failed[kind] = 0
+            self.order.append(kind)
+        if cond:
+            self.passed[kind] += 1
+        else:
+            self.failed[kind] += 1
+            sys.stderr.write("FAIL [%s] %s\n" % (kind, what))
+
+    def ok(self):
+        return not any(self.failed.values())
+
+
+def _prng_ints(tag, n, mod):
+    out = []
+    for i in range(n):
+        h = hashlib.sha512(b"ref_ed selftest|" + tag + b"|" + i.to_bytes(4, "little")).digest()
+        h += hashlib.sha512(h).digest()
+        out.append(int.from_bytes(h, "little") % mod)
+    return out
+
+
+# RFC 7748 section 5.2 / 6.1 / 6.2 vectors (typed in from the RFC).
+_RFC7748_X25519 = [
+    ("a546e36bf0527c9d3b16154b82465edd62144c0ac1fc5a18506a2244ba449ac4",
+     "e6db6867583030db3594c1a424b15f7c726624ec26b3353b10a903a6d0ab1c4c",
+     "c3da55379de9c6908e94ea4df28d084f32eccf03491c71f754b4075577a28552"),
+    ("4b66e9d4d1b4673c5ad22691957d6af5c11b6421e0ea01d42ca4169e7918ba0d",
+     "e5210f12786811d3f4b7959d0538ae2c31dbe7106fc03c3efc4cd549c715a493",
+     "95cbde9476e8907d7aade45cb4b873f88b595a68799fa152e6f8f7647aac7957"),
+    # Diffie-Hellman: (alice priv, 9) -> alice pub ; (bob priv, 9) -> bob pub ;
+    # (alice priv, bob pub) -> shared ; (bob priv, alice pub) -> shared
+    ("77076d0a7318a57d3c16c17251b26645df4c2f87ebc0992ab177fba51db92c2a",
+     "09" + "00" * 31,
+     "8520f0098930a754748b7ddcb43ef75a0dbf3a0d26381af4eba4a98eaa9b4e6a"),
+    ("5dab087e624a8a4b79e17f8b83800ee66f3bb1292618b6fd1c2f8b27ff88e0eb",
+     "09" + "00" * 31,
+     "de9edb7d7b7dc1b4d35b61c2ece435373f8343c85b78674dadfc7e146f882b4f"),
+    ("77076d0a7318a57d3c16c17251b26645df4c2f87ebc0992ab177fba51db92c2a",
+     "de9edb7d7b7dc1b4d35b61c2ece435373f8343c85b78674dadfc7e146f882b4f",
+     "4a5d9d5ba4ce2de1728e3bf480350f25e07e21c947d19e3376f09b3c1e161742"),
+    ("5dab087e624a8a4b79e17f8b83800ee66f3bb1292618b6fd1c2f8b27ff88e0eb",
+     "8520f0098930a754748b7ddcb43ef75a0dbf3a0d26381af4eba4a98eaa9b4e6a",
+     "4a5d9d5ba4ce2de1728e3bf480350f25e07e21c947d19e3376f09b3c1e161742"),
+]
+
+_RFC7748_X448 = [
+    ("3d262fddf9ec8e88495266fea19a34d28882acef045104d0d1aae121700a779c984c24f8cdd78fbff44943eba368f54b29259a4f1c600ad3",
+     "06fce640fa3487bfda5f6cf2d5263f8aad88334cbd07437f020f08f9814dc031ddbdc38c19c6da2583fa5429db94ada18aa7a7fb4ef8a086",
+     "ce3e4ff95a60dc6697da1db1d85e6afbdf79b50a2412d7546d5f239fe14fbaadeb445fc66a01b0779d98223961111e21766282f73dd96b6f"),
+    ("203d494428b8399352665ddca42f9de8fef600908e0d461cb021f8c538345dd77c3e4806e25f46d3315c44e0a5b4371282dd2c8d5be3095f",
+     "0fbcc2f993cd56d3305b0b7d9e55d4c1a8fb5dbb52f8e9a1e9b6201b165d015894e56c4d3570bee52fe205e28a78b91cdfbde71ce8d157db",
+     "884a02576239ff7a2f2f63b2db6a9ff37047ac13568e1e30fe63c4a7ad1b3ee3a5700df34321d62077e63633c575c1c954514e99da7c179d"),
+    ("9a8f4925d1519f5775cf46b04b5800d4ee9ee8bae8bc5565d498c28dd9c9baf574a9419744897391006382a6f127ab1d9ac2d8c0a598726b",
+     "05" + "00" * 55,
+     "9b08f7cc31b7e3e67d22d5aea121074a273bd2b83de09c63faa73d2c22c5d9bbc836647241d953d40c5b12da88120d53177f80e532c41fa0"),
+    ("1c306a7ac2a0e2e0990b294470cba339e6453772b075811d8fad0d1d6927c120bb5ee8972b0d3e21374c9c921b09d1b0366f10b65173992d",
+     "05" + "00" * 55,
+     "3eb7a829b0cd20f5bcfc0b599b6feccf6da4627107bdb0d4f345b43027d8b972fc3e34fb4232a13ca706dcb57aec3dae07bdc1c67bf33609"),
+    ("9a8f4925d1519f5775cf46b04b5800d4ee9ee8bae8bc5565d498c28dd9c9baf574a9419744897391006382a6f127ab1d9ac2d8c0a598726b",
+     "3eb7a829b0cd20f5bcfc0b599b6feccf6da4627107bdb0d4f345b43027d8b972fc3e34fb4232a13ca706dcb57aec3dae07bdc1c67bf33609",
+     "07fff4181ac6cc95ec1c16a94a0f74d12da232ce40a77552281d282bb60c0b56fd2464c335543936521c24403085d59a449a5037514a879d"),
+    ("1c306a7ac2a0e2e0990b294470cba339e6453772b075811d8fad0d1d6927c120bb5ee8972b0d3e21374c9c921b09d1b0366f10b65173992d",
+     "9b08f7cc31b7e3e67d22d5aea121074a273bd2b83de09c63faa73d2c22c5d9bbc836647241d953d40c5b12da88120d53177f80e532c41fa0",
+     "07fff4181ac6cc95ec1c16a94a0f74d12da232ce40a77552281d282bb60c0b56fd2464c335543936521c24403085d59a449a5037514a879d"),
+]
+
+
+def _st_rfc(T):
+    for k, u, o in _RFC7748_X25519:
+        T.check("rfc7748-x25519", x25519(bytes.fromhex(k), bytes.fromhex(u)).hex() == o, k[:8])
+    for k, u, o in _RFC7748_X448:
+        T.check("rfc7748-x448", x448(bytes.fromhex(k), bytes.fromhex(u)).hex() == o, k[:8])
+    # RFC 8032 base point encodings / RFC 7748 base correspondences
+    T.check("rfc8032-const", ED25519.encode(ED25519.B).hex() == "58" + "66" * 31, "B25519")
+    T.check("rfc8032-const", ED25519.to_montgomery_u(ED25519.B) == 9, "u(B25519)=9")
+    T.check("rfc8032-const", ED448.to_montgomery_u(ED448.B) == 5, "u(B448)=5")
+    T.check("rfc8032-const",
+            ED448.encode(ED448.B).hex() ==
+            "14fa30f25b790898adc8d74e2c13bdfdc4397ce61cffd33ad7c2a0051e9c78874098a36c7373ea4b62c7c9563720768824bcb66e71463f6900",
+            "B448")
+    for C in (ED25519, ED448):
+        T.check("rfc8032-const", C.is_neutral(C.mul_affine(C.L, C.B)) and not C.is_neutral(C.B), C.name + " order")
+
+
+def _st_curve_kats(T, C, K, tag):
+    n = C.enc_len
+    # i*P for i = 0..6
+    epp = [bytes.fromhex(h) for h in K["epp"]]
+    PP = [C.decode(b) for b in epp]
+    kind = tag + "-points"
+    for i, (b, P) in enumerate(zip(epp, PP)):
+        T.check(kind, P is not None and C.encode(P) == b, "EPP[%d] roundtrip" % i)
+        T.check(kind, C.is_neutral(P) == (i == 0), "EPP[%d] neutral" % i)
+    for i in range(1, 7):
+        T.check(kind, not C.eq(PP[i], PP[i - 1]), "EPP distinct")
+        T.check(kind, C.eq(C.add(PP[i - 1], PP[1]), PP[i]), "EPP[%d] = EPP[%d]+P" % (i, i - 1))
+        T.check(kind, C.encode(C.mul(i, PP[1])) == epp[i], "EPP[%d] = i*P (mul)" % i)
+        T.check(kind, C.encode(C.mul_affine(i, PP[1])) == epp[i], "EPP[%d] = i*P (affine)" % i)
+    T.check(kind, C.encode(C.dbl(PP[1])) == epp[2], "dbl")
+    T.check(kind, C.encode(C.dbl(C.dbl(PP[1]))) == epp[4], "xdouble(2)")
+    T.check(kind, C.encode(C.add(PP[3], PP[2])) == epp[5], "3P+2P")
+    T.check(kind, C.eq(C.sub(PP[5], PP[3]), PP[2]), "5P-3P")
+    T.check(kind, C.encode(C.add(PP[2], PP[4])) == epp[6], "2P+4P")
+    # mulgen
+    s = int(K["mulgen"]["s_be"], 16)
+    enc = bytes.fromhex(K["mulgen"]["enc"])
+    T.check(kind, s < C.L, "mulgen scalar range")
+    T.check(kind, C.encode(C.mul(s, C.B)) == enc, "mulgen (mul)")
+    T.check(kind, C.encode(C.mul_base(s)) == enc, "mulgen (mul_base)")
+    T.check(kind, C.encode(C.mul_affine(s, C.B)) == enc, "mulgen (affine)")
+    # low-order points
+    low = [C.decode(bytes.fromhex(h)) for h in K["low_enc"]]
+    T.check(kind, all(P is not None for P in low), "LOW_ENC decode")
+    T.check(kind, all(C.has_low_order(P) for P in low), "LOW_ENC low order")
+    T.check(kind, len(low) == C.h and
+            set(K["low_enc"]) == set(C.encode(P).hex() for P in C.low_order_points()),
+            "LOW_ENC == low_order_points()")
+    return low
+
+
+def _st_ed25519_sig(T, K):
+    kind = "ed25519-sig"
+    for tv in K["sig"]:
+        seed, Q, m, ctx, sig = [bytes.fromhex(tv[x]) for x in ("s", "Q", "m", "ctx", "sig")]
+        ph = tv["ph"]
+        c = ctx if tv["dom"] else None
+        mm = hashlib.sha512(m).digest() if ph else m
+        T.check(kind, ed25519_public_key(seed) == Q, "pk")
+        T.check(kind, ed25519_sign(seed, mm, c, ph) == sig, "sign")
+        T.check(kind, ed25519_verify(Q, sig, mm, c, ph), "verify")
+        if tv["dom"]:
+            T.check(kind, not ed25519_verify(Q, sig, mm, b"\x01", ph), "verify wrong ctx")
+            if ph:
+                bad = bytearray(mm)
+                bad[42] ^= 0x08
+                T.check(kind, not ed25519_verify(Q, sig, bytes(bad), c, ph), "verify wrong hm")
+            else:
+                T.check(kind, not ed25519_verify(Q, sig, b"\x00", c, ph), "verify wrong msg")
+            # domain separation between variants
+            T.check(kind, not ed25519_verify(Q, sig, mm, c, not ph), "verify wrong ph flag")
+            T.check(kind, not ed25519_verify(Q, sig, mm, None, False), "verify as pure")
+        else:
+            T.check(kind, not ed25519_verify(Q, sig, b"\x00"), "verify wrong msg")
+            T.check(kind, not ed25519_verify(Q, sig, m, b"", False), "pure sig as ctx(b'')")
+    f = K["frost"]
+    d = int.from_bytes(bytes.fromhex(f["d"]), "little")
+    Q = bytes.fromhex(f["Q"])
+    T.check(kind, ED25519.encode(ED25519.mul_base(d)) == Q, "frost pk")
+    T.check(kind, ed25519_verify(Q, bytes.fromhex(f["sig"]), bytes.fromhex(f["msg"])), "frost verify")
+
+
+def _st_ed448_sig(T, K):
+    kind = "ed448-sig"
+    for tv in K["sig"]:
+        seed, Q, m, ctx, sig = [bytes.fromhex(tv[x]) for x in ("s", "Q", "m", "ctx", "sig")]
+        ph = tv["ph"]
+        mm = hashlib.shake_256(m).digest(64) if ph else m
+        T.check(kind, ed448_public_key(seed) == Q, "pk")
+        T.check(kind, ed448_sign(seed, mm, ctx, ph) == sig, "sign")
+        T.check(kind, ed448_verify(Q, sig, mm, ctx, ph), "verify")
+        T.check(kind, not ed448_verify(Q, sig, mm, b"\x01", ph), "verify wrong ctx")
+        if ph:
+            bad = bytearray(mm)
+            bad[42] ^= 0x08
+            T.check(kind, not ed448_verify(Q, sig, bytes(bad), ctx, ph), "verify wrong hm")
+        else:
+            T.check(kind, not ed448_verify(Q, sig, b"\x00", ctx, ph), "verify wrong msg")
+            if len(ctx) == 0:
+                T.check(kind, ed448_sign(seed, mm) == sig and ed448_verify(Q, sig, mm), "raw == ctx(b'')")
+        T.check(kind, not ed448_verify(Q, sig, mm, ctx, not ph), "verify wrong ph flag")
+
+
+def _st_eddsa_edge(T, C, sign, verify, pubkey, seedlen):
+    """Strictness and cofactored-equation behaviour on hostile inputs."""
+    kind = C.name.replace("edwards", "ed") + "-edge"
+    n = C.enc_len
+    L = C.L
+    is25519 = C is ED25519
+    seed = bytes(range(seedlen))
+    pk = pubkey(seed)
+    msg = b"ref_ed edge cases"
+    sig = sign(seed, msg)
+    T.check(kind, verify(pk, sig, msg), "baseline")
+    T.check(kind, not verify(pk, sig[:-1], msg) and not verify(pk, sig + b"\x00", msg)
+            and not verify(pk, b"", msg), "sig length")
+    T.check(kind, not verify(pk[:-1], sig, msg) and not verify(pk + b"\x00", sig, msg), "pk length")
+    S = int.from_bytes(sig[n:], "little")
+    for j in (1, 2):
+        if S + j * L < (1 << (8 * n)):
+            T.check(kind, not verify(pk, sig[:n] + (S + j * L).to_bytes(n, "little"), msg), "S + %d*L" % j)
+    T.check(kind, not verify(pk, sig[:n] + L.to_bytes(n, "little"), msg), "S = L")
+    if not is25519:
+        bad = bytearray(sig)
+        bad[-1] = 0x80
+        T.check(kind, not verify(pk, bytes(bad), msg), "ed448 last S byte")
+        bad = bytearray(sig)
+        bad[n - 1] |= 0x01
+        T.check(kind, not verify(pk, bytes(bad), msg), "ed448 R low bits of last byte")
+    # low-order A and R, S = 0: accepted whatever the message (equation only)
+    low = C.low_order_points()
+    for i, A in enumerate(low):
+        for R in (low[(3 * i + 1) % C.h], low[0]):
+            s0 = C.encode(R) + bytes(n)
+            T.check(kind, verify(C.encode(A), s0, msg) and verify(C.encode(A), s0, b"other"),
+                    "low-order A[%d], R, S=0" % i)
+    # S = 0 with the honest key and R = neutral must fail
+    T.check(kind, not verify(pk, C.encode(C.neutral) + bytes(n), msg), "honest A, R=neutral, S=0")
+    # mixed-order A' = aB + T1, R' = rB + T2, S = r + k*a: cofactored accepts
+    a, r = _prng_ints(b"mixed" + C.name.encode(), 2, L)
+    for i in range(C.h):
+        T1 = low[i]
+        T2 = low[(5 * i + 3) % C.h]
+        A = C.add(C.mul_base(a), T1)
+        R = C.add(C.mul_base(r), T2)
+        Ab, Rb = C.encode(A), C.encode(R)
+        if is25519:
+            k = int.from_bytes(_sha512(Rb, Ab, msg), "little") % L
+        else:
+            k = int.from_bytes(_shake256_114(_dom4(b"", False), Rb, Ab, msg), "little") % L
+        Sb = ((r + k * a) % L).to_bytes(n, "little")
+        T.check(kind, verify(Ab, Rb + Sb, msg), "mixed-order A,R #%d" % i)
+        T.check(kind, not verify(Ab, Rb + ((r + k * a + 1) % L).to_bytes(n, "little"), msg),
+                "mixed-order, S+1 #%d" % i)
+        T.check(kind, eddsa_equation(C, A, R, (r + k * a) % L, k)
+                and not eddsa_equation(C, A, R, (r + k * a) % L, (k + 1) % L), "equation k+1 #%d" % i)
+    # non-canonical encodings of A / R
+    if is25519:
+        noncanon = [(C.p + 1).to_bytes(32, "little"),                     # y = 1 as p+1
+                    (C.p).to_bytes(32, "little"),                         # y = 0 as p
+                    ((C.p + 1) | (1 << 255)).to_bytes(32, "little"),
+                    (1 | (1 << 255)).to_bytes(32, "little"),              # x = 0, sign 1
+                    ((C.p - 1) | (1 << 255)).to_bytes(32, "little")]      # (0,-1), sign 1
+    else:
+        noncanon = [(C.p + 1).to_bytes(57, "little"),
+                    (C.p).to_bytes(57, "little"),
+                    (1 | (1 << 455)).to_bytes(57, "little"),
+                    ((C.p - 1) | (1 << 455)).to_bytes(57, "little"),
+                    (1 | (1 << 448)).to_bytes(57, "little")]
+    for e in noncanon:
+        T.check(kind, C.decode(e) is None, "non-canonical point decode " + e.hex()[-6:])
+        T.check(kind, not verify(e, C.encode(C.neutral) + bytes(n), msg), "non-canonical A")
+        T.check(kind, not verify(C.encode(C.neutral), e + bytes(n), msg), "non-canonical R")
+    # context length
+    long_ctx = b"c" * 256
+    ok_ctx = b"c" * 255
+    s255 = sign(seed, msg, ok_ctx)
+    T.check(kind, verify(pk, s255, msg, ok_ctx), "ctx of 255 bytes")
+    try:
+        sign(seed, msg, long_ctx)
+        T.check(kind, False, "sign with ctx > 255 must raise")
+    except ValueError:
+        T.check(kind, True)
+    T.check(kind, not verify(pk, s255, msg, long_ctx), "verify ctx > 255 -> False")
+    T.check(kind, eddsa_verify_outcome(C, pk, s255, msg, long_ctx) == "panic", "outcome panic")
+    T.check(kind, eddsa_verify_outcome(C, pk, s255[:-1], msg, long_ctx) == "reject", "outcome reject (len)")
+    T.check(kind, eddsa_verify_outcome(C, pk, s255[:n] + L.to_bytes(n, "little"), msg, long_ctx) == "reject",
+            "outcome reject (S)")
+    T.check(kind, eddsa_verify_outcome(C, pk, s255, msg, ok_ctx) == "accept", "outcome accept")
+
+
+def _st_group_law(T, C):
+    kind = C.name.replace("edwards", "ed") + "-grouplaw"
+    L, h, p = C.L, C.h, C.p
+    low = C.low_order_points()
+    ks = _prng_ints(b"glaw" + C.name.encode(), 6, h * L)
+    sub_pts = [C.mul_base(k) for k in ks[:3]]
+    mixed = [C.add(sub_pts[i % 3], low[(i % (h - 1)) + 1]) for i in range(h)]
+    pts = low + mixed + sub_pts
+    T.check(kind, len(set(low)) == h and all(C.on_curve(P) for P in pts), "points on curve")
+    # orders of the torsion points (cyclic group generated by low[1])
+    for i, P in enumerate(low):
+        order = next(j for j in range(1, h + 1) if C.is_neutral(C.mul_affine(j, P)))
+        T.check(kind, order == h // gcd(i, h), "order of low[%d]" % i)
+        T.check(kind, C.in_subgroup(P) == (i == 0), "low[%d] in_subgroup" % i)
+    for P in mixed:
+        T.check(kind, not C.in_subgroup(P) and not C.has_low_order(P), "mixed not in subgroup")
+        T.check(kind, C.in_subgroup(C.mul(h, P)), "h*mixed in subgroup")
+    for P in sub_pts:
+        T.check(kind, C.in_subgroup(P), "subgroup point")
+    T.check(kind, not C.in_subgroup((2, 3)), "off-curve not in subgroup")
+    # like crrl's in_subgroup test: P + j*T_h, j = 1..h-1
+    P = sub_pts[0]
+    for j in range(1, h):
+        P = C.add(P, low[1])
+        T.check(kind, not C.in_subgroup(P), "P + %d*T" % j)
+    # axioms
+    for i, P in enumerate(pts):
+        T.check(kind, C.eq(C.add(P, C.neutral), P) and C.eq(C.add(C.neutral, P), P), "identity")
+        T.check(kind, C.is_neutral(C.add(P, C.neg(P))) and C.is_neutral(C.sub(P, P)), "inverse")
+        T.check(kind, C.eq(C.dbl(P), C.add(P, P)) and C.on_curve(C.dbl(P)), "dbl")
+        Q = pts[(7 * i + 3) % len(pts)]
+        R = pts[(11 * i + 5) % len(pts)]
+        T.check(kind, C.eq(C.add(P, Q), C.add(Q, P)), "commutative")
+        T.check(kind, C.eq(C.add(C.add(P, Q), R), C.add(P, C.add(Q, R))), "associative")
+        T.check(kind, C.eq(C.sub(C.add(P, Q), Q), P), "sub")
+        b = C.encode(P)
+        T.check(kind, len(b) == C.enc_len and C.decode(b) == P, "encode/decode")
+    # fast path vs extended-formula helpers vs affine law
+    for i, P in enumerate(pts):
+        Pe = (P[0], P[1], 1, P[0] * P[1] % p)
+        Q = pts[(5 * i + 1) % len(pts)]
+        Qe = (Q[0], Q[1], 1, Q[0] * Q[1] % p)
+        T.check(kind, C._to_affine(C._ext_add(Pe, Qe)) == C.add(P, Q), "ext add vs affine")
+        T.check(kind, C._to_affine(C._ext_dbl(Pe)) == C.dbl(P), "ext dbl vs affine")
+    edge = [0, 1, 2, 3, h - 1, h, h + 1, 15, 16, 17, 31, 32, 33, L - 1, L, L + 1, 2 * L - 1,
+            h * L - 1, h * L, h * L + 1, h * L + 5, -1, -2, -L, -(h * L) - 3, (1 << 256) - 1,
+            (1 << 512) + 12345, (1 << 447), (1 << 448) - 1] + ks
+    return pts, edge
+
+
+def _st_mul(T, C, pts, edge):
+    kind = C.name.replace("edwards", "ed") + "-mul-vs-affine"
+    hL = C.h * C.L
+    n = 0
+    for i, P in enumerate(pts):
+        # every point gets a few scalars; together all edge scalars are used
+        sel = [edge[(i * 5 + j) % len(edge)] for j in range(5)]
+        for k in sel:
+            R = C.mul(k, P)
+            T.check(kind, R == C.mul_affine(k % hL, P), "mul k=%d pt#%d" % (k, i))
+            n += 1
+    for k in edge:
+        R = C.mul_base(k)
+        T.check(kind, R == C.mul_affine(k % hL, C.B) and R == C.mul(k, C.B), "mul_base k=%d" % k)
+    # negative k in mul_affine itself, and linearity
+    P = pts[-1]
+    T.check(kind, C.mul_affine(-5, P) == C.neg(C.mul_affine(5, P)), "mul_affine negative")
+    k1, k2 = edge[-1], edge[-2]
+    for P in pts[::3]:
+        T.check(kind, C.eq(C.mul(k1 + k2, P), C.add(C.mul(k1, P), C.mul(k2, P))), "linearity")
+        T.check(kind, C.eq(C.mul(k1 * k2, P), C.mul(k1, C.mul(k2, P))), "composition")
+
+
+def _st_montgomery(T, quick):
+    kind = "x-vs-edwards"
+    for C, xf, n, clamp in (
+            (ED25519, x25519, 32, lambda k: (k & ((1 << 254) - 8)) | (1 << 254)),
+            (ED448, x448, 56, lambda k: (k & ((1 << 448) - 4)) | (1 << 447))):
+        low = C.low_order_points()
+        ubase = C.to_montgomery_u(C.B).to_bytes(n, "little")
+        for i in range(6 if quick else 20):
+            kb = (hashlib.sha256 if n == 32 else hashlib.sha512)(i.to_bytes(8, "little")).digest()[:n]
+            k = clamp(int.from_bytes(kb, "little"))
+            # crrl's x*_basepoint test: x(k, base) == to_montgomery_u(k*B)
+            T.check(kind, xf(kb, ubase) == C.to_montgomery_u(C.mul_base(k)).to_bytes(n, "little"),
+                    C.name + " base #%d" % i)
+            # arbitrary (mixed-order) Edwards point
+            P = C.add(C.mul_base(k ^ 0x55AA55), low[1 + i % (C.h - 1)])
+            u = C.to_montgomery_u(P).to_bytes(n, "little")
+            T.check(kind, xf(kb, u) == C.to_montgomery_u(C.mul(k, P)).to_bytes(n, "little"),
+                    C.name + " mixed #%d" % i)
+        # conventions for exceptional points
+        T.check(kind, C.to_montgomery_u(C.neutral) == 0, "u(neutral) = 0")
+        T.check(kind, C.to_montgomery_u((0, C.p - 1)) == 0, "u((0,-1)) = 0")
+        for Pl in low:
+            kb = bytes(range(n))
+            u = C.to_montgomery_u(Pl).to_bytes(n, "little")
+            T.check(kind, xf(kb, u) == bytes(n), "low-order u -> all-zero output")
+        # non-canonical u is reduced
+        kb = bytes(range(1, n + 1))
+        for small in (0, 1, 2, 9, 18):
+            if C.p + small < (1 << (8 * n - (1 if n == 32 else 0))):
+                T.check(kind, xf(kb, (C.p + small).to_bytes(n, "little")) == xf(kb, small.to_bytes(n, "little")),
+                        "non-canonical u = p+%d" % small)
+        if n == 32:
+            u = bytearray((9).to_bytes(32, "little"))
+            u[31] |= 0x80
+            T.check(kind, x25519(kb, bytes(u)) == x25519(kb, (9).to_bytes(32, "little")), "top bit of u ignored")
+            k2 = bytearray(kb)
+            k2[0] |= 7
+            k2[31] = (k2[31] | 0x80) & 0xBF
+            T.check(kind, x25519(bytes(k2), ubase) == x25519(kb, ubase), "clamping")
+        else:
+            k2 = bytearray(kb)
+            k2[0] |= 3
+            k2[55] &= 0x7F
+            T.check(kind, x448(bytes(k2), ubase) == x448(kb, ubase), "clamping")
+
+
+def _st_x_iter(T, K, quick):
+    for name, xf, n, g in (("x25519", x25519, 32, 9), ("x448", x448, 56, 5)):
+        kind = name + "-crrl-iter"
+        k = g.to_bytes(n, "little")
+        u = k
+        iters = 100 if quick else 1000
+        for i in range(iters):
+            k, u = xf(k, u), k
+            if i == 0:
+                T.check(kind, k.hex() == K[name]["mc1"], "1 iteration")
+        if not quick:
+            T.check(kind, k.hex() == K[name]["mc1000"], "1000 iterations")
+
+
+def _st_prime_order(T, G, K, tag):
+    C = G.curve
+    p = G.p
+    # --- KATs -------------------------------------------------------------
+    kind = tag + "-mulgen"
+    P = G.neutral
+    for i, hx in enumerate(K["mulgen"]):
+        b = bytes.fromhex(hx)
+        Q = G.decode(b)
+        ok = Q is not None and C.on_curve(Q) and G.eq(P, Q) and G.eq(Q, P)
+        ok = ok and G.encode(P) == b and G.encode(Q) == b
+        R = G.mul_base(i)
+        ok = ok and G.eq(P, R) and G.encode(R) == b and G.is_neutral(P) == (i == 0)
+        T.check(kind, ok, "%d*B" % i)
+        P = G.add(P, G.base)
+    kind = tag + "-invalid"
+    for hx in K["invalid"]:
+        T.check(kind, G.decode(bytes.fromhex(hx)) is None, hx[:16])
+    b0 = bytes.fromhex(K["mulgen"][1])
+    T.check(kind, G.decode(b0[:-1]) is None and G.decode(b0 + b"\x00") is None and G.decode(b"") is None,
+            "wrong length")
+    T.check(kind, G.decode((int.from_bytes(b0, "little") + p).to_bytes(G.enc_len, "little")
+                           if int.from_bytes(b0, "little") + p < (1 << (8 * G.enc_len)) else b"") is None,
+            "s + p")
+    kind = tag + "-map"
+    for tv in K["map"]:
+        R = G.one_way_map(bytes.fromhex(tv["I"]))
+        T.check(kind, G.encode(R).hex() == tv["O"] and G.is_valid_representative(R), tv["O"][:16])
+    for bad_len in (0, G.map_len - 1, G.map_len + 1, G.enc_len):
+        try:
+            G.one_way_map(bytes(bad_len))
+            T.check(kind, False, "one_way_map length %d must raise" % bad_len)
+        except ValueError:
+            T.check(kind, True)
+    # all-zero input: MAP(0)+MAP(0) must still be a valid element
+    R = G.one_way_map(bytes(G.map_len))
+    T.check(kind, G.is_valid_representative(R) and G.decode(G.encode(R)) is not None, "one_way_map(0)")
+    # --- quotient-group properties ----------------------------------------
+    kind = tag + "-coset"
+    low = C.low_order_points()
+    # torsion points that lie in 2E: E[4] for ristretto255, E[2] for decaf448
+    tors = [low[i] for i in range(0, C.h, 2)]
+    T.check(kind, len(tors) == C.h // 2 and all(G.is_valid_representative(t) for t in tors), "torsion coset")
+    ks = _prng_ints(tag.encode(), 6, G.L)
+    for i, k in enumerate(ks):
+        # representative with a torsion component: 2*(k*B_ed + T_j)
+        Q = C.add(C.mul_base(k), low[i % C.h])
+        P = C.dbl(Q)
+        T.check(kind, G.is_valid_representative(P), "in 2E")
+        e = G.encode(P)
+        for t in tors:
+            Pt = C.add(P, t)
+            T.check(kind, G.encode(Pt) == e and G.eq(P, Pt) and G.eq(Pt, P), "encode(P+T) == encode(P)")
+        D = G.decode(e)
+        T.check(kind, D is not None and G.eq(D, P) and G.encode(D) == e and G.is_valid_representative(D),
+                "decode(encode(P))")
+        T.check(kind, not G.eq(P, C.add(P, G.base)) and G.encode(C.add(P, G.base)) != e, "P != P+B")
+        T.check(kind, G.encode(G.neg(P)) == G.encode(G.neg(C.add(P, tors[-1]))), "neg compatible")
+        # encoding commutes with the group law on representatives
+        k2 = ks[(i + 1) % len(ks)]
+        T.check(kind, G.encode(G.add(G.mul_base(k), G.mul_base(k2))) == G.encode(G.mul_base(k + k2)),
+                "add/mul_base")
+        T.check(kind, G.encode(G.mul(k2, C.add(G.mul_base(k), tors[1]))) == G.encode(G.mul_base(k * k2)), "mul")
+    for t in tors:
+        T.check(kind, G.encode(t) == bytes(G.enc_len) and G.is_neutral(t), "torsion encodes as neutral")
+    T.check(kind, G.encode(G.mul_base(G.L)) == bytes(G.enc_len), "L*B = neutral")
+
+
+def selftest(quick=False, verbose=True):
+    """Runs all checks; returns True iff everything passed.
+    quick=True shortens the iterated X25519/X448 KATs (then the 1000-iteration
+    values are not checked) and some randomized loops."""
+    T = _Tally()
+    path = os.path.join(os.path.dirname(os.path.abspath(__file__)), "ref_ed_kats.json")
+    with open(path) as f:
+        K = json.load(f)
+
+    _st_rfc(T)
+    _st_curve_kats(T, ED25519, K["ed25519"], "ed25519-crrl")
+    _st_curve_kats(T, ED448, K["ed448"], "ed448-crrl")
+    T.check("ed25519-crrl-points",
+            ED25519.encode(ED25519.low_order_points()[1]).hex() in
+            (K["ed25519"]["t8_enc"], K["ed25519"]["low_enc"][1], K["ed25519"]["low_enc"][3],
+             K["ed25519"]["low_enc"][5], K["ed25519"]["low_enc"][7]), "T8 generator has order 8")
+    _st_ed25519_sig(T, K["ed25519"])
+    _st_ed448_sig(T, K["ed448"])
+    _st_eddsa_edge(T, ED25519, ed25519_sign, ed25519_verify, ed25519_public_key, 32)
+    _st_eddsa_edge(T, ED448, ed448_sign, ed448_verify, ed448_public_key, 57)
+    for C in (ED25519, ED448):
+        pts, edge = _st_group_law(T, C)
+        _st_mul(T, C, pts, edge)
+    _st_prime_order(T, RISTRETTO255, K["ristretto255"], "ristretto255")
+    _st_prime_order(T, DECAF448, K["decaf448"], "decaf448")
+    _st_montgomery(T, quick)
+    _st_x_iter(T, K, quick)
+
+    if verbose:
+        parts = []
+        for kind in T.order:
+            tot = T.passed[kind] + T.failed[kind]
+            parts.append("%s %d/%d" % (kind, T.passed[kind], tot))
+        total_p = sum(T.passed.values())
+        total = total_p + sum(T.failed.values())
+        print("ref_ed selftest: " + "; ".join(parts))
+        print("ref_ed selftest: %s (%d/%d checks passed)" % ("OK" if T.ok() else "FAILED", total_p, total))
+    return T.ok()
+
+
+if __name__ == "__main__":
+    sys.exit(0 if selftest(quick=("--quick" in sys.argv[1:])) else 1)
